@@ -25,6 +25,11 @@ def build(pc, E, canary=None):
     pc.add_functions(E, TARGETS)
     if canary is not None:
         return
+    pc.bounded_native('C17.B/render-matrix', 'render_matrix.py', {},
+                      'render_basic through real applications: endpoints with no / one-line / multi-line docstrings, tabular mappings '
+                      'and sequences, JSON-like / HTML-like / plain / mismatched-bracket text, format parameter x Accept headers with '
+                      'q-values and wildcards: 200, never raises, the format the statement asks for, valid JSON bodies',
+                      '8 texts + 4 endpoints x 3 formats x 7 Accept headers', cases=92)
     pc.assumptions += ['A-json: json encoder/round trip', 'A-tbl: boltons Table accepts the tabular shapes (HTML-table clause assumed)',
                        'user serialisation hooks (to_dict/asdict/isoformat) are total',
                        'the JSON renderer in dev mode and the tabular renderer are summarised as returning a Response']
